@@ -31,3 +31,7 @@ chmod 644 *
 # keys whose DER ends in a byte that text tools treat specially (0x0a, 0x0d 0x0a, 0x20, 0x00): key files are binary.
 # ed25519_6{lf,crlf,sp,nul}: PKCS#8 v1 framing + a seed with the wanted tail (a few lines of Python, see the commit);
 # p256_6lf / p384_6lf: `openssl genpkey` repeated until the last byte of the public key (= of the file) is 0x0a
+# data-dependent shapes (round 6): rsa2047_1 (`rsa_keygen_bits:2047`: the modulus has no sign octet), rsa2048_8e33
+# (`rsa_keygen_pubexp:4294967297`, a 33-bit public exponent), ed25519_7pub00 / ed25519_7pubz00 (public key starts / ends with
+# 0x00: seeds found by search), ed25519_7oids / p256_7oids / p384_7oids (private scalar or seed that contains the DER
+# contents of the algorithm OIDs of the OTHER key types; EC keys written as SEC1 without public key and completed by `openssl ec`)
